@@ -230,14 +230,26 @@ func vfObserve(v map[string]any) (res map[string]any) {
 	res["gather"] = map[string]any{"ok": gerr == nil, "samples": samples}
 
 	// 2. HTTP surface
+	ctype := ""
 	get := func(path string) (int, string) {
 		rr := httptest.NewRecorder()
 		h.ServeHTTP(rr, httptest.NewRequest("GET", path, nil))
+		ctype = rr.Header().Get("Content-Type")
 		return rr.Code, rr.Body.String()
 	}
 	mcode, _ := get("/metrics")
 	acode, abody := get("/_/api/interfaces")
+	if acode == 200 && !strings.HasPrefix(ctype, "application/json") {
+		acode = -200 // answered, but not as JSON
+	}
 	pcode, _ := get("/debug/pprof/")
+	// the pprof handlers that are registered one by one answer when (and only when) the index does (profile and trace
+	// would run for seconds: not probed)
+	for _, sub := range []string{"/debug/pprof/cmdline", "/debug/pprof/symbol"} {
+		if c, _ := get(sub); (c == 404) != (pcode == 404) {
+			pcode = -1
+		}
+	}
 	rcode, _ := get("/")
 	ncode, _ := get("/nope")
 	res["http"] = map[string]any{"metrics": mcode, "api": acode, "pprof": pcode, "root": rcode, "nope": ncode}
